@@ -8,6 +8,10 @@ exclude, set_locales):
                    implementation vs extracted stateful model (filter_st)
   FILTER-spec      the same cases: implementation vs cache-free model and vs the Coq spec
   FILTER-exclude   dedicated small stream: excluded configurations with non-error file rules
+                   (known finding exclude-nonerror-verdict, D10)
+  FILTER-literal   patterns without variables or wildcards (Matcher.match returns {}; repaired
+                   defect 1757672: _filter used to test the dictionary for truth); an ordinary
+                   stream, failures are plain violations (signature literal-path-empty-dict)
   FILTER-stale     queries, then add_rules / set_locales / add_paths on some node, more queries
   FILTER-build     configurations whose construction raises (re.error, ExcludeError)
   COMPILE          _compile_rule expansion: path lists x (nested) key lists, probes on keys
@@ -97,8 +101,8 @@ def shapes():
 SHAPES = shapes()
 PRED = dict(SHAPES)
 # patterns without a variable or wildcard: Matcher.match returns an EMPTY dictionary for
-# them, which _filter takes for "no match" (finding literal-path-empty-dict); they are
-# drawn only in the dedicated stream FILTER-literal
+# them (which _filter took for "no match" before the repair 1757672); they are drawn
+# with high probability in the stream FILTER-literal
 LITERAL = [t for t, _ in SHAPES if "*" not in t and "{" not in t]
 POOL = {"literal": False}
 # patterns that are likely to cover something come first in the draw
@@ -422,8 +426,8 @@ def exclude_nonerror(c, li, fi):
 
 
 def literal_hit(c, li, fi):
-    """the known-finding predicate: some pattern of the project matches the file with an
-    empty dictionary (observed on the real Matcher)"""
+    """some pattern of the project matches the file with an empty dictionary (observed on
+    the real Matcher): names the failure family of the repaired defect 1757672"""
     for _, node in walk_nodes(c):
         texts = [p["l10n"] for p in node["paths"]]
         for r in node["rules"]:
@@ -472,7 +476,7 @@ def run_filter_stream(chk, model, name, descs, nq, oracle_on=True, finding_strea
         if out[0] != 0:
             chk.count((name, "raise", json.dumps(desc, sort_keys=True)))
             continue
-        for (_, li, fi, key), got in zip(ops, out[1]):
+        for qi, ((_, li, fi, key), got) in enumerate(zip(ops, out[1])):
             got = common.l2s(got)
             chk.count((name, json.dumps(desc, sort_keys=True), li, fi, key))
             chk.hist("verdicts", got)
@@ -481,8 +485,9 @@ def run_filter_stream(chk, model, name, descs, nq, oracle_on=True, finding_strea
                 continue
             exp = oracle(desc, li, fi, key)
             if got != exp:
+                # the queries asked before this one on the same object (cache state)
                 case = {"config": desc, "locale": LOCS[li], "file": fullpath(FILES[fi]),
-                        "key": key, "li": li, "fi": fi}
+                        "key": key, "li": li, "fi": fi, "asked_before": [list(o) for o in ops[:qi]]}
                 if literal_hit(desc, li, fi):
                     chk.fail("literal-path-empty-dict", case, {"got": got, "expected": exp})
                 elif exclude_nonerror(desc, li, fi):
@@ -511,9 +516,9 @@ def run_filter_stream(chk, model, name, descs, nq, oracle_on=True, finding_strea
                     continue
                 rows, syn = o[1]
                 # the theorem's hypothesis must hold on this stream, and then spec = model
-                if not all(r[2] and r[3] for r in rows):
+                if not all(r[2] for r in rows):
                     chk.fail("spec-hypothesis", {"suite": name},
-                             "excludes_error_only / dicts_nonempty false in the main stream")
+                             "excludes_error_only false outside the stream of the known finding")
                 spec.append([0, [r[1] for r in rows]])
             chk.correspond(name + "-spec", cases, impl, spec)
         else:
@@ -523,12 +528,12 @@ def run_filter_stream(chk, model, name, descs, nq, oracle_on=True, finding_strea
                 if o[0] != 0:
                     continue
                 for r, got in zip(o[1][0], im[1]):
-                    if not (r[2] and r[3]):
+                    if not r[2]:
                         n_h += 1
                         n_diff += r[1] != got
                     elif r[0] != r[1] or r[0] != got:
                         chk.fail("spec-vs-model", {"suite": name}, {"row": r, "impl": got})
-            chk.notes.append(f"{name}: {n_h} queries outside the hypotheses excludes_error_only / dicts_nonempty, "
+            chk.notes.append(f"{name}: {n_h} queries outside the hypothesis excludes_error_only, "
                              f"{n_diff} of them with implementation != spec (the finding)")
 
 
@@ -816,11 +821,16 @@ def run(chk, runner_ok):
             d["excludes"].append(gen_config(rng, 1, False, None, 0.9))
         descs.append(d)
     run_filter_stream(chk, model, "FILTER-exclude", descs, nq, finding_stream=True)
-    # ---- the dedicated stream of the second finding: patterns without variables ----
+    # ---- patterns without variables or wildcards (empty match dictionaries) ----------
     POOL["literal"] = True
     descs = [LITERAL_WITNESS] + [gen_config(rng) for _ in range(chk.n(80, 600))]
     POOL["literal"] = False
-    run_filter_stream(chk, model, "FILTER-literal", descs, nq, finding_stream=True)
+    out = impl_session(LITERAL_WITNESS, [(0, 0, 0, None)])
+    if out != ok([s2l("ignore")]):
+        chk.fail("literal-path-empty-dict", {"config": LITERAL_WITNESS, "li": 0, "fi": 0, "key": None,
+                                             "locale": "de", "file": fullpath(FILES[0])},
+                 {"got": out, "expected": "ignore"})
+    run_filter_stream(chk, model, "FILTER-literal", descs, nq)
     # ---- construction that raises ---------------------------------------
     descs = []
     for _ in range(chk.n(80, 600)):
@@ -942,8 +952,9 @@ def replay(chk, path):
     for f in data.get("failures", []):
         c = f["case"]
         if "config" in c and "li" in c:
-            out = impl_session(c["config"], [(0, c["li"], c["fi"], c["key"])])
-            got = common.l2s(out[1][0]) if out[0] == 0 else out
+            before = [tuple(o) for o in c.get("asked_before", [])]
+            out = impl_session(c["config"], before + [(0, c["li"], c["fi"], c["key"])])
+            got = common.l2s(out[1][-1]) if out[0] == 0 else out
             exp = oracle(c["config"], c["li"], c["fi"], c["key"])
             print("signature", f["signature"], "query", c["locale"], c["file"], repr(c["key"]),
                   "impl", got, "expected", exp)
